@@ -180,6 +180,9 @@ func c25Gen(w *bufio.Writer, seed int64, tier string) {
 	class := c25ClassChars()
 	cmds := []string{"true", "echo", "ls", "whoami", "cat", "sh", "bash", "id"}
 	near := func(c string) string {
+		if c == "" {
+			return "x"
+		}
 		switch r.intn(12) {
 		case 0:
 			return "/bin/" + c
